@@ -198,3 +198,28 @@ CONFIG["C08"] = dict(
     level_note="Lean kernel + correspondence",
     assumptions=["reliable broadcast, round-synchronous delivery, at most t Byzantine participants"],
 )
+
+CONFIG["C06"] = dict(
+    lean_modules=["Props.C06"], generators=["C06"], level="proof",
+    rule="key generation for (n,t) in {(2,1),(3,1),(3,2),(5,2),(7,3),(10,9),(40,13)} (thorough adds (254,1),(254,253),(100,50)) compared share by share with the model (polynomial derived from the seed by the model's own SHA3/ChaCha20/mapToFr), "
+         "guards; stateless reconstruction: every subset of size t..t+2 for n<=6 (thorough n<=7) in random order, an invalid share of 8 kinds at every position, duplicate/out-of-range signers, extra malformed unused share, "
+         "index sets straddling the 8-index limb batches up to index 253; every reconstruction compared with the model (coefficient computed by the textbook formula AND by the limb-batched loop, which must agree) and with the one group signature a0*H; "
+         "stateful object: random op sequences of TrustedAdd/VerifyAndAdd/HasShare/EnoughShares/VerifyShare/VerifyThresholdSignature/ThresholdSignature with valid, invalid (8 kinds) and out-of-range inputs",
+    trusted_base=BLS_TB, technique="Lean 4 proof (Lagrange interpolation at zero via Mathlib, limb overflow bound, stateful invariants) + differential run",
+    level_text="Theorems: for every field, polynomial of degree <= t and set of >= t+1 distinct nodes, combining shares P(x_i)*h with the Lagrange coefficients gives P(0)*h (hence identical output for every subset/order; public shares interpolate to the group key); "
+               "products of <= 8 indices <= 255 fit a 64-bit limb; the stateful object never returns a signature failing group verification, < t+1 shares give not-enough-shares. "
+               "That the limb-batched loop with sign tracking equals the textbook coefficient is checked at run time on every case, not yet a theorem (partial).",
+    level_note="Lean kernel + correspondence",
+    assumptions=["BLST multi-scalar multiplication and Fr inversion compute the field/group operations"],
+)
+CONFIG["C18"] = dict(
+    lean_modules=["Props.C18"], generators=["C18"], level="proof", race=True,
+    rule="concurrent histories: 2-4 goroutines x 2-3 operations (<= 10 per history) on one inspector, invocation/response stamped by an atomic logical clock, built with the Go race detector; "
+         "each history is checked for linearizability by exhaustive search over real-time-consistent orders in the Lean model of the sequential semantics; post-state invariants (<= t+1 shares, EnoughShares consistent, stable threshold signature)",
+    trusted_base=BLS_TB + ["sync.RWMutex provides mutual exclusion; Go executes the extracted critical sections atomically with respect to each other (Go memory model)"],
+    technique="Lean 4 proof (sequential invariants by induction; atomic-body executions are linearizable; lock discipline extracted from the source and decided) + race-detector stress with model-checked histories",
+    level_text="Theorems: invariants (<= t+1 shares, one per signer, cached signature valid) after every op sequence; readers pure; EnoughShares monotone; signature stable; every execution whose bodies run atomically is explained by the body order, which respects real time (any number of threads, any interleaving); "
+               "discipline: every method reaching mutable state takes the lock first, releases it by defer, touches nothing mutable before, writers hold the write lock, no re-entrancy - decided on the table regenerated from the code.",
+    level_note="partial: mutual exclusion of sync.RWMutex and the Go memory model are assumed, not modelled",
+    assumptions=["sync.RWMutex is a correct reader/writer lock"],
+)
